@@ -352,4 +352,5 @@ def verify_contract(contract, want_smt_sample=True, log=None, shard=()):
             work.extend(pp for pp in ex.pending if len(pp) > k_sh)
         out["paths"] += npaths
     out["wall_s"] = time.time() - t0
+    out["exec_hash"] = rp.executed_hash()
     return out
